@@ -23,10 +23,14 @@ def _child(fn, task, wfd, quiet):
             if not os.environ.get("MC_DEBUG"):
                 os.dup2(dn, 2)
             os.close(dn)
+        cov = _start_coverage()
         try:
             res = ("ok", fn(task))
         except BaseException:
             res = ("exc", traceback.format_exc())
+        if cov is not None:
+            cov.stop()
+            cov.save()
         try:
             data = pickle.dumps(res)
         except Exception:
@@ -40,6 +44,41 @@ def _child(fn, task, wfd, quiet):
             pass
     finally:
         os._exit(0)
+
+
+def _start_coverage():
+    """Opt-in (MC_COVERAGE_DIR): records which lines / branches of the library the exploration executes.
+    Used by tools/coverage_gaps.py to find behaviour no check reaches; never on in registered commands."""
+    global _COV
+    d = os.environ.get("MC_COVERAGE_DIR")
+    if not d:
+        return None
+    import coverage
+
+    repo = os.environ.get("MC_REPO", "/repo")
+    cov = coverage.Coverage(data_file=os.path.join(d, "c.%d" % os.getpid()), branch=True,
+                            include=[repo + "/src/inline_snapshot/*"], config_file=False)
+    cov.start()
+    _COV = cov
+    return cov
+
+
+_COV = None
+
+
+def coverage_after_fork():
+    """In a grandchild (drivers.plugin.session): continue tracing into a data file of its own."""
+    global _COV
+    if _COV is not None:
+        _COV.stop()
+        _COV = None
+        _start_coverage()
+
+
+def coverage_save():
+    if _COV is not None:
+        _COV.stop()
+        _COV.save()
 
 
 def run_tasks(fn, tasks, nproc=None, timeout=900, quiet=True, progress=None):
